@@ -144,12 +144,12 @@ pub fn flush(c: &mut collect::Collector, q: Vec<cases::Pending>, prelude: &[Stri
         let _ = std::fs::write(p, prelude.join("\n") + "\n" + &reqs.join("\n") + "\n");
     }
     let t0 = std::time::Instant::now();
-    let parts = if reqs.len() < 2000 { 1 } else { 12.min(reqs.len() / 1000).max(1) };
-    let chunk = (reqs.len() + parts - 1) / parts.max(1);
+    // round-robin over up to 14 driver processes (heavy requests cluster by declaration, so contiguous chunks are unbalanced)
+    let parts = if reqs.len() < 2000 { 1 } else { 14.min(reqs.len() / 500).max(1) };
     let mut handles = vec![];
-    for part in reqs.chunks(chunk.max(1)) {
+    for part in 0..parts {
         let mut lines: Vec<String> = prelude.to_vec();
-        lines.extend(part.iter().cloned());
+        lines.extend(reqs.iter().skip(part).step_by(parts).cloned());
         let np = prelude.len();
         handles.push(std::thread::spawn(move || {
             let resp = model::run_model(&lines);
@@ -158,7 +158,7 @@ pub fn flush(c: &mut collect::Collector, q: Vec<cases::Pending>, prelude: &[Stri
             (bad, resp.into_iter().skip(np).collect::<Vec<String>>())
         }));
     }
-    let mut resp: Vec<String> = Vec::with_capacity(reqs.len());
+    let mut per_part: Vec<Vec<String>> = vec![];
     let mut first = true;
     for h in handles {
         let (bad, r) = h.join().expect("model thread");
@@ -168,7 +168,12 @@ pub fn flush(c: &mut collect::Collector, q: Vec<cases::Pending>, prelude: &[Stri
             }
             first = false;
         }
-        resp.extend(r);
+        per_part.push(r);
+    }
+    let mut iters: Vec<std::vec::IntoIter<String>> = per_part.into_iter().map(|v| v.into_iter()).collect();
+    let mut resp: Vec<String> = Vec::with_capacity(reqs.len());
+    for i in 0..reqs.len() {
+        resp.push(iters[i % parts].next().expect("model response"));
     }
     *c.stats.entry("model-ms".to_string()).or_insert(0) += t0.elapsed().as_millis() as u64;
     assert_eq!(resp.len(), q.len());
